@@ -128,3 +128,504 @@ Proof.
   assert (de = dist_extra_bits ds) by lia. subst de.
   repeat split; try lia; reflexivity.
 Qed.
+
+(* ------------------------------------------------------------------ *)
+(* gen_codes agrees with canon                                          *)
+
+Lemma assign_all_assign : forall lens nc sym s,
+  nth s lens 0 <> 0 ->
+  exists c, nth s (assign_all lens nc) (0, 0) = (nth s lens 0, c) /\
+            In ((sym + s)%nat, N.to_nat (nth s lens 0), c) (assign (map N.to_nat lens) sym nc).
+Proof.
+  induction lens as [|x r IH]; intros nc sym s Hs.
+  - destruct s; cbn [nth] in Hs; congruence.
+  - cbn [assign_all map assign].
+    destruct (x =? 0) eqn:Ex.
+    + assert (E0 : Nat.eqb (N.to_nat x) 0 = true) by lia. rewrite E0.
+      destruct s as [|s']; cbn [nth] in Hs |- *.
+      * lia.
+      * replace (sym + S s')%nat with (S sym + s')%nat by lia. apply IH. exact Hs.
+    + assert (E0 : Nat.eqb (N.to_nat x) 0 = false) by lia. rewrite E0.
+      destruct s as [|s']; cbn [nth] in Hs |- *.
+      * exists (nthN nc x). split; [reflexivity|]. left.
+        unfold nthN. replace (sym + 0)%nat with sym by lia. reflexivity.
+      * destruct (IH (updN nc x (nthN nc x + 1)) (S sym) s' Hs) as [c [Hc1 Hc2]].
+        exists c. split; [exact Hc1|]. right.
+        replace (sym + S s')%nat with (S sym + s')%nat by lia.
+        unfold updN, nthN in Hc2. exact Hc2.
+Qed.
+
+(* ------------------------------------------------------------------ *)
+(* trimming trailing zero lengths                                       *)
+
+Definition tzf (acc : list N) (x : N) : list N := if x =? 0 then x :: acc else [].
+
+Lemma repeat_snoc : forall A (a : A) n, repeat a n ++ [a] = a :: repeat a n.
+Proof.
+  intros A a n. induction n as [|n IH]; cbn [repeat app].
+  - reflexivity.
+  - rewrite IH. reflexivity.
+Qed.
+
+Lemma trailing_zeros : forall l,
+  (length (fold_left tzf l []) <= length l)%nat /\
+  skipn (length l - length (fold_left tzf l [])) l = repeat 0 (length (fold_left tzf l [])).
+Proof.
+  intros l. induction l as [|x l IH] using rev_ind.
+  - cbn. split; [lia|reflexivity].
+  - rewrite fold_left_app. cbn [fold_left]. unfold tzf at 1 3 5.
+    destruct IH as [IH1 IH2].
+    set (r := fold_left tzf l []) in *.
+    rewrite app_length. cbn [length].
+    destruct (x =? 0) eqn:Ex.
+    + assert (x = 0) by lia. subst x. cbn [length]. split; [lia|].
+      replace (length l + 1 - S (length r))%nat with (length l - length r)%nat by lia.
+      rewrite skipn_app. rewrite IH2.
+      replace (length l - length r - length l)%nat with 0%nat by lia.
+      cbn [skipn repeat]. apply repeat_snoc.
+    + cbn [length]. split; [lia|].
+      replace (length l + 1 - 0)%nat with (length (l ++ [x])) by (rewrite app_length; cbn [length]; lia).
+      rewrite skipn_all. reflexivity.
+Qed.
+
+Lemma used_count_nat : forall l,
+  N.to_nat (used_count l) = (length l - length (fold_left tzf l []))%nat.
+Proof.
+  intros l. unfold used_count, lenN. fold tzf. lia.
+Qed.
+
+Lemma trim_decomp : forall l, exists n, l = trim l ++ repeat 0 n.
+Proof.
+  intros l. destruct (trailing_zeros l) as [H1 H2].
+  exists (length (fold_left tzf l [])).
+  unfold trim. rewrite used_count_nat. rewrite <- H2. symmetry. apply firstn_skipn.
+Qed.
+
+Lemma count_occ_repeat0 : forall n b, b <> 0%nat -> count_occ Nat.eq_dec (repeat 0%nat n) b = 0%nat.
+Proof.
+  induction n as [|n IH]; intros b Hb; cbn [repeat count_occ].
+  - reflexivity.
+  - destruct (Nat.eq_dec 0 b) as [E|E]; [congruence|]. apply IH. exact Hb.
+Qed.
+
+Lemma first_code_zeros : forall l n b, first_code (l ++ repeat 0%nat n) b = first_code l b.
+Proof.
+  intros l n b. induction b as [|b IH]; cbn [first_code].
+  - reflexivity.
+  - rewrite IH. destruct (Nat.eqb b 0) eqn:Eb.
+    + reflexivity.
+    + unfold count_len. rewrite count_occ_app. rewrite count_occ_repeat0 by lia.
+      rewrite Nat.add_0_r. reflexivity.
+Qed.
+
+Lemma assign_zeros_nil : forall n sym nc, assign (repeat 0%nat n) sym nc = [].
+Proof.
+  induction n as [|n IH]; intros sym nc; cbn [repeat assign].
+  - reflexivity.
+  - cbn [Nat.eqb]. apply IH.
+Qed.
+
+Lemma assign_zeros : forall l n sym nc, assign (l ++ repeat 0%nat n) sym nc = assign l sym nc.
+Proof.
+  induction l as [|x r IH]; intros n sym nc; cbn [app assign].
+  - apply assign_zeros_nil.
+  - destruct (Nat.eqb x 0).
+    + apply IH.
+    + rewrite IH. reflexivity.
+Qed.
+
+Lemma map_to_nat_zeros : forall n, map N.to_nat (repeat 0 n) = repeat 0%nat n.
+Proof.
+  induction n as [|n IH]; cbn [repeat map].
+  - reflexivity.
+  - rewrite IH. reflexivity.
+Qed.
+
+Lemma canon_trim : forall l, canon (map N.to_nat (trim l)) = canon (map N.to_nat l).
+Proof.
+  intros l. destruct (trim_decomp l) as [n D].
+  set (t := trim l) in *. clearbody t. subst l.
+  rewrite map_app, map_to_nat_zeros. unfold canon.
+  rewrite assign_zeros. f_equal. apply map_ext. intros b.
+  symmetry. apply first_code_zeros.
+Qed.
+
+Lemma gen_codes_canon : forall lens s, nthN lens s <> 0 ->
+  exists c, nth (N.to_nat s) (gen_codes lens) (0, 0) = (nthN lens s, c) /\
+            In (N.to_nat s, N.to_nat (nthN lens s), c) (canon (map N.to_nat (trim lens))).
+Proof.
+  intros lens s Hs. rewrite canon_trim. unfold gen_codes, canon.
+  destruct (assign_all_assign lens (map (first_code (map N.to_nat lens)) (seq 0 17)) 0%nat (N.to_nat s) Hs)
+    as [c [H1 H2]].
+  exists c. split; [exact H1|]. exact H2.
+Qed.
+
+Lemma used_nonzero : forall l s, nthN l s <> 0 -> used_count l <> 0.
+Proof.
+  intros l s Hs Hu. destruct (trim_decomp l) as [n D].
+  unfold trim in D. rewrite Hu in D. cbn [N.to_nat firstn app] in D.
+  apply Hs. unfold nthN. rewrite D.
+  destruct (nth_in_or_default (N.to_nat s) (repeat 0 n) 0) as [HIn|E]; [|exact E].
+  apply repeat_spec in HIn. exact HIn.
+Qed.
+
+Lemma dist_sent_trim : forall l s, nthN l s <> 0 -> dist_lens_sent l = trim l.
+Proof.
+  intros l s Hs. unfold dist_lens_sent.
+  destruct (used_count l =? 0) eqn:E; [|reflexivity].
+  exfalso. apply (used_nonzero l s Hs). lia.
+Qed.
+
+(* the code word of a used symbol decodes to that symbol *)
+Lemma decode_word : forall maxl lens t s rest p,
+  mktrie maxl (map N.to_nat (trim lens)) = Some t -> nthN lens s <> 0 ->
+  decode_sym t (mkbs (sym_word (gen_codes lens) s ++ rest) p)
+    = DOk (N.to_nat s) (mkbs rest (p + N.of_nat (length (sym_word (gen_codes lens) s)))).
+Proof.
+  intros maxl lens t s rest p Hmk Hs.
+  destruct (gen_codes_canon lens s Hs) as [c [H1 H2]].
+  unfold sym_word. rewrite H1. unfold code_word. cbn [fst snd].
+  rewrite code_bits_length.
+  exact (decode_encode maxl _ t _ _ c rest p Hmk H2).
+Qed.
+
+(* ------------------------------------------------------------------ *)
+(* take                                                                 *)
+
+Lemma take_app : forall l rest p,
+  take (length l) (mkbs (l ++ rest) p) = Some (N_of_bits l, mkbs rest (p + N.of_nat (length l))).
+Proof.
+  induction l as [|b r IH]; intros rest p.
+  - cbn [length take app N_of_bits]. replace (p + N.of_nat 0) with p by lia. reflexivity.
+  - cbn [length take app N_of_bits]. unfold take1. cbn [bl bp].
+    rewrite IH.
+    replace (p + 1 + N.of_nat (length r)) with (p + N.of_nat (S (length r))) by lia.
+    reflexivity.
+Qed.
+
+Lemma take_bits : forall k v rest p, v < 2 ^ k ->
+  take (N.to_nat k) (mkbs (bits_of_N (N.to_nat k) v ++ rest) p) = Some (v, mkbs rest (p + k)).
+Proof.
+  intros k v rest p Hv.
+  pose proof (take_app (bits_of_N (N.to_nat k) v) rest p) as H.
+  rewrite bits_of_N_length in H. rewrite H.
+  rewrite N_of_bits_of_N by (rewrite N2Nat.id; exact Hv).
+  rewrite N2Nat.id. reflexivity.
+Qed.
+
+(* ------------------------------------------------------------------ *)
+(* copy_cyc / copy_match                                                *)
+
+Lemma copy_cyc_fields : forall seg n cur st, seg <> [] ->
+  length (rout (copy_cyc seg cur n st)) = (length (rout st) + n)%nat /\
+  olen (copy_cyc seg cur n st) = olen st + N.of_nat n /\
+  oavail (copy_cyc seg cur n st) = oavail st + N.of_nat n /\
+  osyncs (copy_cyc seg cur n st) = osyncs st.
+Proof.
+  intros seg n. induction n as [|n IH]; intros cur st Hseg; cbn [copy_cyc].
+  - repeat split; lia.
+  - destruct cur as [|b cur'].
+    + destruct seg as [|b s'] eqn:Es; [congruence|]. rewrite <- Es in *.
+      destruct (IH s' (push b st) Hseg) as (A & B & C & D).
+      cbn [push rout olen oavail osyncs length] in A, B, C, D.
+      repeat split; try lia. exact D.
+    + destruct (IH cur' (push b st) Hseg) as (A & B & C & D).
+      cbn [push rout olen oavail osyncs length] in A, B, C, D.
+      repeat split; try lia. exact D.
+Qed.
+
+Lemma seg_nonempty : forall d (h : list byte), 1 <= d -> d <= N.of_nat (length h) ->
+  frev (firstn (N.to_nat d) h) <> [].
+Proof.
+  intros d h H1 H2 E. rewrite frev_rev in E.
+  apply (f_equal (@length _)) in E. rewrite rev_length, firstn_length in E.
+  cbn [length] in E. lia.
+Qed.
+
+Lemma copy_match_fields : forall len d st, 1 <= d -> d <= N.of_nat (length (rout st)) ->
+  N.of_nat (length (rout (copy_match len d st))) = N.of_nat (length (rout st)) + len /\
+  olen (copy_match len d st) = olen st + len /\
+  oavail (copy_match len d st) = oavail st + len /\
+  osyncs (copy_match len d st) = osyncs st.
+Proof.
+  intros len d st H1 H2. unfold copy_match. cbn [rout olen oavail osyncs].
+  set (seg := frev (firstn (N.to_nat d) (rout st))).
+  destruct (copy_cyc_fields seg (N.to_nat len) seg st (seg_nonempty d (rout st) H1 H2)) as (A & B & C & D).
+  repeat split; try lia. exact D.
+Qed.
+
+Lemma firstn_snoc : forall A (z : A) (h : list A) d, (d < length h)%nat ->
+  firstn (S d) h = firstn d h ++ [nth d h z].
+Proof.
+  intros A z. induction h as [|a h IH]; intros d H; cbn [length] in H; [lia|].
+  destruct d as [|d].
+  - reflexivity.
+  - change (firstn (S (S d)) (a :: h)) with (a :: firstn (S d) h).
+    rewrite IH by lia. reflexivity.
+Qed.
+
+Lemma copy_cyc_copy_from : forall seg D dist, N.to_nat dist = S D ->
+  forall n cur st pre,
+    seg = pre ++ cur -> rev (firstn (S D) (rout st)) = cur ++ pre ->
+    (S D <= length (rout st))%nat ->
+    rout (copy_cyc seg cur n st) = copy_from (rout st) dist n.
+Proof.
+  intros seg D dist Hd. induction n as [|n IH]; intros cur st pre Hseg Hrev Hlen.
+  - reflexivity.
+  - assert (HN : exists b cur' pre',
+               seg = pre' ++ b :: cur' /\
+               rev (firstn (S D) (rout st)) = (b :: cur') ++ pre' /\
+               copy_cyc seg cur (S n) st = copy_cyc seg cur' n (push b st)).
+    { destruct cur as [|b cur'].
+      - cbn [app] in Hrev. rewrite app_nil_r in Hseg. subst pre.
+        destruct seg as [|b s'].
+        + exfalso. apply (f_equal (@length _)) in Hrev.
+          rewrite rev_length, firstn_length in Hrev. cbn [length] in Hrev.
+          rewrite (Nat.min_l _ _ Hlen) in Hrev. discriminate Hrev.
+        + exists b, s', []. cbn [app]. rewrite app_nil_r.
+          split; [reflexivity|]. split; [exact Hrev|]. reflexivity.
+      - exists b, cur', pre. split; [exact Hseg|]. split; [exact Hrev|]. reflexivity. }
+    destruct HN as (b & cur' & pre' & Hs & Hr & Hc). rewrite Hc.
+    cbn [copy_from]. rewrite Hd. replace (S D - 1)%nat with D by lia.
+    assert (HD : (D < length (rout st))%nat) by lia.
+    rewrite (firstn_snoc byte 0 _ _ HD) in Hr. rewrite rev_app_distr in Hr. cbn [rev app] in Hr.
+    injection Hr as Hb Hr'.
+    rewrite (IH cur' (push b st) (pre' ++ [b])).
+    + cbn [push rout]. subst b. reflexivity.
+    + rewrite <- app_assoc. exact Hs.
+    + cbn [push rout]. change (firstn (S D) (b :: rout st)) with (b :: firstn D (rout st)).
+      cbn [rev]. rewrite Hr'. rewrite app_assoc. reflexivity.
+    + cbn [push rout length]. lia.
+Qed.
+
+Lemma copy_match_rout : forall len d st, 1 <= d -> d <= N.of_nat (length (rout st)) ->
+  rout (copy_match len d st) = copy_from (rout st) d (N.to_nat len).
+Proof.
+  intros len d st H1 H2. unfold copy_match. cbn [rout].
+  apply (copy_cyc_copy_from _ (N.to_nat d - 1)%nat d) with (pre := []).
+  - lia.
+  - reflexivity.
+  - replace (S (N.to_nat d - 1)) with (N.to_nat d) by lia.
+    rewrite app_nil_r, frev_rev. reflexivity.
+  - lia.
+Qed.
+
+(* ------------------------------------------------------------------ *)
+(* one token                                                            *)
+
+Lemma apply_tok_fields : forall W st t,
+  tok_ok W (oavail st) t -> oavail st <= N.of_nat (length (rout st)) ->
+  N.of_nat (length (rout (apply_tok st t))) = N.of_nat (length (rout st)) + tok_len t /\
+  olen (apply_tok st t) = olen st + tok_len t /\
+  oavail (apply_tok st t) = oavail st + tok_len t /\
+  osyncs (apply_tok st t) = osyncs st.
+Proof.
+  intros W st t Hok Hinv. destruct t as [b|len dist]; cbn [apply_tok tok_len].
+  - cbn [push rout olen oavail osyncs length]. repeat split; lia.
+  - cbn [tok_ok] in Hok. apply copy_match_fields; lia.
+Qed.
+
+Lemma apply_tok_rout : forall W st t,
+  tok_ok W (oavail st) t -> oavail st <= N.of_nat (length (rout st)) ->
+  rout (apply_tok st t) = expand_rev [t] (rout st).
+Proof.
+  intros W st t Hok Hinv. destruct t as [b|len dist]; cbn [apply_tok expand_rev].
+  - reflexivity.
+  - cbn [tok_ok] in Hok. apply copy_match_rout; lia.
+Qed.
+
+Lemma apply_toks_cons : forall t r st, apply_toks (t :: r) st = apply_toks r (apply_tok st t).
+Proof. reflexivity. Qed.
+
+Lemma expand_rev_cons : forall t r h, expand_rev (t :: r) h = expand_rev r (expand_rev [t] h).
+Proof. intros t r h. destruct t; reflexivity. Qed.
+
+Definition apply_toks_expand_partial_statement : Prop :=
+  forall ts st, toks_ok 32768 (oavail st) ts -> oavail st = N.of_nat (length (rout st)) ->
+    olen st <= oavail st ->
+    rout (apply_toks ts st) = expand_rev ts (rout st) /\
+    oavail (apply_toks ts st) = N.of_nat (length (rout (apply_toks ts st))) /\
+    olen (apply_toks ts st) + (oavail st - olen st) = oavail (apply_toks ts st) /\
+    osyncs (apply_toks ts st) = osyncs st.
+
+Theorem apply_toks_expand_partial : apply_toks_expand_partial_statement.
+Proof.
+  unfold apply_toks_expand_partial_statement.
+  induction ts as [|t r IH]; intros st Hok Hinv Hle.
+  - cbn [apply_toks fold_left expand_rev]. repeat split; try lia.
+  - cbn [toks_ok] in Hok. destruct Hok as [Ht Hr].
+    assert (Hinv' : oavail st <= N.of_nat (length (rout st))) by lia.
+    destruct (apply_tok_fields _ st t Ht Hinv') as (A & B & C & D).
+    pose proof (apply_tok_rout _ st t Ht Hinv') as E.
+    rewrite apply_toks_cons, expand_rev_cons.
+    rewrite <- C in Hr.
+    destruct (IH (apply_tok st t) Hr) as (I1 & I2 & I3 & I4); try lia.
+    rewrite <- E. repeat split.
+    + exact I1.
+    + exact I2.
+    + lia.
+    + congruence.
+Qed.
+
+(* ------------------------------------------------------------------ *)
+(* one step of Spec.symbols                                             *)
+
+Lemma symbols_lit : forall f lt dt st s sym s1,
+  decode_sym lt s = DOk sym s1 -> (sym < 256)%nat ->
+  symbols (S f) lt dt st s = symbols f lt dt (push (N.of_nat sym) st) s1.
+Proof.
+  intros f lt dt st s sym s1 Hd Hs. cbn [symbols]. rewrite Hd.
+  destruct (sym <? 256)%nat eqn:E; [reflexivity|lia].
+Qed.
+
+Lemma symbols_end : forall f lt dt st s s1,
+  decode_sym lt s = DOk 256%nat s1 -> symbols (S f) lt dt st s = BEnd st s1.
+Proof.
+  intros f lt dt st s s1 Hd. cbn [symbols]. rewrite Hd. reflexivity.
+Qed.
+
+Lemma symbols_match : forall f lt dt st s sym s1 lbase lextra le s2 dsym s3 dbase dextra de s4,
+  decode_sym lt s = DOk sym s1 -> (256 < sym)%nat ->
+  nth_error len_table (sym - 257) = Some (lbase, lextra) ->
+  take (N.to_nat lextra) s1 = Some (le, s2) ->
+  decode_sym dt s2 = DOk dsym s3 ->
+  nth_error dist_table dsym = Some (dbase, dextra) ->
+  take (N.to_nat dextra) s3 = Some (de, s4) ->
+  dbase + de <= oavail st ->
+  symbols (S f) lt dt st s = symbols f lt dt (copy_match (lbase + le) (dbase + de) st) s4.
+Proof.
+  intros f lt dt st s sym s1 lbase lextra le s2 dsym s3 dbase dextra de s4
+         Hd Hs Hl Ht1 Hd2 Hdt Ht2 Hav.
+  cbn [symbols]. rewrite Hd.
+  destruct (sym <? 256)%nat eqn:E1; [lia|].
+  destruct (sym =? 256)%nat eqn:E2; [lia|].
+  rewrite Hl, Ht1, Hd2, Hdt, Ht2.
+  destruct (oavail st <? dbase + de) eqn:E3; [lia|]. reflexivity.
+Qed.
+
+(* ------------------------------------------------------------------ *)
+(* D: symbols round trip                                                *)
+
+Definition symbols_partial_statement : Prop :=
+  forall litlens distlens lt dt ts st rest p fuel,
+    length litlens = 286%nat -> length distlens = 30%nat ->
+    mktrie 15 (map N.to_nat (trim litlens)) = Some lt ->
+    mktrie 15 (map N.to_nat (dist_lens_sent distlens)) = Some dt ->
+    nthN litlens 256 <> 0 ->
+    Forall (tok_coded litlens distlens) ts ->
+    toks_ok 32768 (oavail st) ts ->
+    oavail st <= N.of_nat (length (rout st)) ->
+    (length ts < fuel)%nat ->
+    let lcodes := gen_codes litlens in
+    let dcodes := gen_codes distlens in
+    let bits := flat_map (token_bits lcodes dcodes) ts ++ sym_word lcodes 256 in
+    symbols fuel lt dt st (mkbs (bits ++ rest) p)
+      = BEnd (apply_toks ts st) (mkbs rest (p + N.of_nat (length bits))).
+
+Lemma symbols_core : forall litlens distlens lt dt,
+  mktrie 15 (map N.to_nat (trim litlens)) = Some lt ->
+  mktrie 15 (map N.to_nat (dist_lens_sent distlens)) = Some dt ->
+  nthN litlens 256 <> 0 ->
+  forall ts st rest p fuel,
+    Forall (tok_coded litlens distlens) ts ->
+    toks_ok 32768 (oavail st) ts ->
+    oavail st <= N.of_nat (length (rout st)) ->
+    (length ts < fuel)%nat ->
+    symbols fuel lt dt st
+      (mkbs ((flat_map (token_bits (gen_codes litlens) (gen_codes distlens)) ts
+                ++ sym_word (gen_codes litlens) 256) ++ rest) p)
+      = BEnd (apply_toks ts st)
+             (mkbs rest (p + N.of_nat (length
+                (flat_map (token_bits (gen_codes litlens) (gen_codes distlens)) ts
+                   ++ sym_word (gen_codes litlens) 256)))).
+Proof.
+  intros litlens distlens lt dt Hlt Hdt H256.
+  induction ts as [|t r IH]; intros st rest p fuel Hcoded Hok Hinv Hfuel.
+  - cbn [flat_map app apply_toks fold_left].
+    destruct fuel as [|f]; [cbn [length] in Hfuel; lia|].
+    apply symbols_end.
+    exact (decode_word 15 litlens lt 256 rest p Hlt H256).
+  - destruct fuel as [|f]; [cbn [length] in Hfuel; lia|].
+    cbn [length] in Hfuel.
+    inversion Hcoded as [|t0 r0 Hc Hcr]; subst t0 r0.
+    cbn [toks_ok] in Hok. destruct Hok as [Ht Hr].
+    destruct (apply_tok_fields _ st t Ht Hinv) as (A & _ & C & _).
+    rewrite <- C in Hr.
+    assert (Hinv' : oavail (apply_tok st t) <= N.of_nat (length (rout (apply_tok st t)))) by lia.
+    rewrite apply_toks_cons.
+    cbn [flat_map].
+    rewrite <- (app_assoc (token_bits (gen_codes litlens) (gen_codes distlens) t) _
+                          (sym_word (gen_codes litlens) 256)).
+    set (X := flat_map (token_bits (gen_codes litlens) (gen_codes distlens)) r
+                ++ sym_word (gen_codes litlens) 256) in *.
+    clearbody X.
+    destruct t as [b|len dist].
+    + (* literal *)
+      cbn [tok_coded] in Hc. destruct Hc as [Hb Hnz].
+      cbn [token_bits apply_tok] in *.
+      rewrite <- !app_assoc.
+      rewrite (symbols_lit f lt dt st _ (N.to_nat b) _
+                 (decode_word 15 litlens lt b _ p Hlt Hnz)) by lia.
+      rewrite N2Nat.id.
+      rewrite (IH _ rest _ f Hcr Hr Hinv') by lia.
+      f_equal. f_equal. rewrite !app_length. lia.
+    + (* match *)
+      cbn [tok_coded] in Hc. cbn [tok_ok] in Ht.
+      cbn [token_bits apply_tok] in *.
+      destruct (len_symbol len) as [[ls lb] lv] eqn:El.
+      destruct (dist_symbol dist) as [ds dv] eqn:Ed.
+      cbn [fst] in Hc. destruct Hc as [Hlnz Hdnz].
+      destruct (len_symbol_table len ls lb lv) as (lbase & HL1 & HL2 & HL3 & HL4 & HL5);
+        [lia|lia|exact El|].
+      destruct (dist_symbol_table dist ds dv) as (dbase & HD1 & HD2 & HD3);
+        [lia|lia|exact Ed|].
+      rewrite (dist_sent_trim distlens ds Hdnz) in Hdt.
+      rewrite <- !app_assoc.
+      rewrite (symbols_match f lt dt st _ (N.to_nat ls) _ lbase lb lv _ (N.to_nat ds) _
+                 dbase (dist_extra_bits ds) dv _
+                 (decode_word 15 litlens lt ls _ p Hlt Hlnz)
+                 ltac:(lia)
+                 HL1
+                 (take_bits lb lv _ _ HL3)
+                 (decode_word 15 distlens dt ds _ _ Hdt Hdnz)
+                 HD1
+                 (take_bits (dist_extra_bits ds) dv _ _ HD3)
+                 ltac:(lia)).
+      rewrite HL2, HD2.
+      rewrite (IH _ rest _ f Hcr Hr Hinv') by lia.
+      f_equal. f_equal. rewrite !app_length, !bits_of_N_length. lia.
+Qed.
+
+Theorem symbols_ok_partial : symbols_partial_statement.
+Proof.
+  unfold symbols_partial_statement. cbv zeta.
+  intros litlens distlens lt dt ts st rest p fuel _ _ Hlt Hdt H256 Hcoded Hok Hinv Hfuel.
+  apply symbols_core; assumption.
+Qed.
+
+(* the instance for states that satisfy the invariant of Spec.inflate *)
+Theorem symbols_ok_partial_eq :
+  forall litlens distlens lt dt ts st rest p fuel,
+    length litlens = 286%nat -> length distlens = 30%nat ->
+    mktrie 15 (map N.to_nat (trim litlens)) = Some lt ->
+    mktrie 15 (map N.to_nat (dist_lens_sent distlens)) = Some dt ->
+    nthN litlens 256 <> 0 ->
+    Forall (tok_coded litlens distlens) ts ->
+    toks_ok 32768 (oavail st) ts ->
+    oavail st = N.of_nat (length (rout st)) ->
+    (length ts < fuel)%nat ->
+    let lcodes := gen_codes litlens in
+    let dcodes := gen_codes distlens in
+    let bits := flat_map (token_bits lcodes dcodes) ts ++ sym_word lcodes 256 in
+    symbols fuel lt dt st (mkbs (bits ++ rest) p)
+      = BEnd (apply_toks ts st) (mkbs rest (p + N.of_nat (length bits))).
+Proof.
+  intros litlens distlens lt dt ts st rest p fuel H1 H2 Hlt Hdt H256 Hcoded Hok Hinv Hfuel.
+  cbv zeta. apply symbols_core; try assumption. lia.
+Qed.
+
+Print Assumptions symbols_ok_partial.
+Print Assumptions symbols_ok_partial_eq.
+Print Assumptions apply_toks_expand_partial.
+Print Assumptions symbols_statement_false.
+Print Assumptions apply_toks_expand_statement_false.
